@@ -108,9 +108,13 @@ def r2_outcomes(ctx):
     result = None
     if nx:
         g0 = nx[0].args[0]
-        b = mexpr(f'(V_p for V_p in V_gen if ispart({incl}, V_p))', g0) if incl else None
-        gen = stmt_of(f, calls_to(f, {'shortest_simple_paths'})[0])
-        ok = b is not None and isinstance(gen, ast.Assign) and gen.targets[0].id == b['V_gen'] and len(nx[0].args) == 1
+        b = mexpr(f'(V_p for V_p in E_gen if ispart({incl}, V_p))', g0) if incl else None
+        ssp = calls_to(f, {'shortest_simple_paths'})[0]
+        gen = stmt_of(f, ssp)
+        # the generator: held in a local, or the call written as the iterable
+        ok = b is not None and len(nx[0].args) == 1 and (
+            b['E_gen'] is ssp or (isinstance(b['E_gen'], ast.Name) and isinstance(gen, ast.Assign) and gen.value is ssp and
+                                  isinstance(gen.targets[0], ast.Name) and gen.targets[0].id == b['E_gen'].id))
         st_nx = stmt_of(f, nx[0])
         result = st_nx.targets[0].id if isinstance(st_nx, ast.Assign) and isinstance(st_nx.targets[0], ast.Name) else None
     ctx.check('R2.outcomes', f'{s} first passing path', bool(ok), key(f, 'first-passing'),
@@ -294,12 +298,13 @@ def r5_helpers(ctx):
     collect = [{'V_po': nm} for nm, _, _ in bound_by(f.node, f"[V_e.oms for V_e in {NL} if hasattr(V_e, 'oms')]")]
     if len(collect) == 1:
         po = collect[0]['V_po']
-        sr = [nm for nm, _, _ in bound_by(f.node, f'V_n if isinstance(V_n, Roadm) else {SRC}')]
-        dr = [nm for nm, _, _ in bound_by(f.node, f'V_n if isinstance(V_n, Roadm) else {DST}')]
+        from ..pattern import bound_by_if
+        srb = bound_by_if(f.node, 'isinstance(V_n, Roadm)', 'V_n', SRC)
+        drb = bound_by_if(f.node, 'isinstance(V_n, Roadm)', 'V_n', DST)
+        sr, dr = [x[0] for x in srb], [x[0] for x in drb]
         ok = len(sr) == 1 and len(dr) == 1
         if ok:
-            sn = [b for _, _, b in bound_by(f.node, f'V_n if isinstance(V_n, Roadm) else {SRC}')][0]['V_n']
-            dn = [b for _, _, b in bound_by(f.node, f'V_n if isinstance(V_n, Roadm) else {DST}')][0]['V_n']
+            sn, dn = srb[0][2]['V_n'], drb[0][2]['V_n']
             ok = bool(bound_by(f.node, f'next({NET}.successors({SRC}))')) and bound_by(f.node, f'next({NET}.successors({SRC}))')[0][0] == sn and \
                 bool(bound_by(f.node, f'next({NET}.predecessors({DST}))')) and bound_by(f.node, f'next({NET}.predecessors({DST}))')[0][0] == dn
             edge = find(f'if {po}[0].el_list[0] != {sr[0]} or {po}[-1].el_list[-1] != {dr[0]}:\n    return None', f.node)
